@@ -82,6 +82,8 @@ def getitem(eng, st, ref, o, idx):
     if not isinstance(idx, tuple):
         idx = (idx,)
     # boolean mask / fancy index
+    if len(idx) == 1 and isinstance(idx[0], Ref) and idx[0].oid in eng.index_masks:
+        idx = (eng.index_masks[idx[0].oid],)
     if len(idx) == 1 and isinstance(idx[0], Ref):
         m = arr_of(eng, st, idx[0])
         if m.dtype == 'bool':
@@ -211,6 +213,8 @@ def setitem(eng, st, ref, o, idx, v):
     if not isinstance(idx, tuple):
         idx = (idx,)
     va = arr_of(eng, st, v)
+    if len(idx) == 1 and isinstance(idx[0], Ref) and idx[0].oid in eng.index_masks:
+        idx = (eng.index_masks[idx[0].oid],)
     if len(idx) == 1 and isinstance(idx[0], Ref):
         m = arr_of(eng, st, idx[0])
         if m.dtype != 'bool':
@@ -750,3 +754,22 @@ def np_allclose(eng, st, args, kwargs):
         return
     r = eng.elementwise(f, a, b, st, 'bool')
     yield reduce_anyall(eng, st, st.heap[r.oid], 'all'), st
+
+
+@lib('numpy.flatnonzero')
+def np_flatnonzero(eng, st, args, kwargs):
+    """indices of the non-zero cells; indexing / storing with the result is indexing / storing with the mask `a != 0`"""
+    a = arr_of(eng, st, args[0])
+    if a.ndim != 1:
+        raise OutOfSubset('flatnonzero of a 2-D array')
+    mask = ArrV(a.shape, lambda i, a=a: ne(a.at(i), 0), 'bool')
+    mref = new_ref(st, mask)
+    res = compress(eng, st, ArrV(a.shape, lambda i: i, 'int'), mask)
+    eng.index_masks[res.oid] = mref
+    yield res, st
+
+
+@lib('numpy.log2')
+def np_log2(eng, st, args, kwargs):
+    f = calls.uninterpreted('log2', ['Real'], 'Real')
+    yield map1(eng, st, args[0], lambda x: f(to_z3(to_real(x))) if is_z3(to_num(x)) or True else x, 'real'), st
